@@ -44,6 +44,7 @@ def make_plan(g, lib, cls, subset="random", omit=None, extras=0, session_id=None
     """subset: 'none' | 'all' | 'random' | a set of optional argument names to supply."""
     r = g.rng
     plan = Plan(lib, cls)
+    twins = []          # AVPs already in the message of which an extra keyword AVP may be an equal twin
     for p in params_of(cls):
         name = p.name
         tcls = table_class(cls, name)
@@ -74,6 +75,8 @@ def make_plan(g, lib, cls, subset="random", omit=None, extras=0, session_id=None
                 plan.kwargs[name] = value
                 plan.describe_args[name] = spec.describe()
                 plan.expected.append({"arg": name, "cls": tcls.__name__, "lavp": spec.lavp, "source": "supplied"})
+                if spec.members is None:
+                    twins.append(spec)
             else:
                 spec = g.generic()
                 plan.kwargs[name] = spec.build()
@@ -83,7 +86,14 @@ def make_plan(g, lib, cls, subset="random", omit=None, extras=0, session_id=None
             plan.expected.append({"arg": name, "cls": tcls.__name__ if tcls is not None else None, "lavp": None,
                                   "source": "default"})
     for i in range(extras):
-        spec = g.generic() if r.random() < 0.6 else g.avp(r.choice(g.classes), maxdepth=3)
+        if twins and r.random() < 0.3:
+            # an extra AVP that equals, byte for byte, one the message already holds (a second Route-Record of the same hop,
+            # a repeated Proxy-Info): it is one more AVP all the same
+            spec = r.choice(twins)
+        else:
+            spec = g.generic() if r.random() < 0.6 else g.avp(r.choice(g.classes), maxdepth=3)
+            if spec.members is None:
+                twins.append(spec)
         nm = "extra_%d_%d" % (i, r.randrange(1000))
         plan.kwargs[nm] = spec.build()
         plan.describe_args[nm] = spec.describe()
